@@ -281,6 +281,14 @@ func (c *Ctx) findLocal(fr *Frame, name string) *Loc {
 		want = name[:j]
 		fmt.Sscanf(name[j+1:], "%d", &ord)
 	}
+	// a variable captured by the closure under verification
+	for _, fv := range fr.Fn.FreeVars {
+		if fv.Name() == want {
+			if l, ok := fr.Vals[fv].(*Loc); ok {
+				return l
+			}
+		}
+	}
 	var best *Loc
 	bestID := -1
 	k := 0
